@@ -282,7 +282,7 @@ fn run_path(content: &Content, path: &[usize], steps: &[StepDef], battery: &[Q])
             coordinates.push(("time", format!(r#" AS OF TIME "{}""#, point.at)));
         }
         for (kind, coordinate) in &coordinates {
-            let mut compare = |family: &str, what: String, live: &Json, then: &Json, report: &mut PathReport| {
+            let compare = |family: &str, what: String, live: &Json, then: &Json, report: &mut PathReport| {
                 report.comparisons += 1;
                 *report.comparisons_by_kind.entry(kind).or_insert(0) += 1;
                 if live["ok"].as_array().is_some_and(|rows| !rows.is_empty()) || live["ok"].is_object() {
